@@ -95,6 +95,17 @@ fn open_streams() -> Streams {
     Streams { pty, file, pipe_w: pw, _pipe_r: pr }
 }
 
+/// Does the decision `got` agree with the expected one? An explicit global choice must come back
+/// exactly; a decision taken from the environment is "colour enabled" or "colour disabled" - the
+/// property does not say whether "enabled" is spelled Always or AlwaysAnsi.
+fn agrees(cfg: &Config, got: ColorChoice, want: ColorChoice) -> bool {
+    if choice_of(cfg.global) != ColorChoice::Auto {
+        got == want
+    } else {
+        (got == ColorChoice::Never) == (want == ColorChoice::Never) && got != ColorChoice::Auto
+    }
+}
+
 fn mode_of(c: ColorChoice) -> ColorChoice {
     // what `current_choice` reports on a non-Windows platform
     match c {
@@ -114,14 +125,14 @@ fn check_config(cfg: &Config, st: &Streams) -> Result<(), String> {
         let pty = st.pty.as_ref().ok_or("no pty")?;
         let f = pty.try_clone().map_err(|e| format!("dup pty: {e}"))?;
         let got = AutoStream::choice(&f);
-        if got != want {
+        if !agrees(cfg, got, want) {
             return Err(format!("terminal stream: choice = {:?}, expected {:?} for {}", got, want, show()));
         }
         // the same terminal behind the public wrapper types
         {
             let boxed: Box<std::fs::File> = Box::new(pty.try_clone().map_err(|e| format!("dup pty: {e}"))?);
             let got = AutoStream::choice(&boxed);
-            if got != want {
+            if !agrees(cfg, got, want) {
                 return Err(format!("terminal stream as Box<File>: choice = {:?}, expected {:?} for {}", got, want, show()));
             }
             let sb = AutoStream::auto(boxed);
@@ -131,7 +142,7 @@ fn check_config(cfg: &Config, st: &Streams) -> Result<(), String> {
             let mut f2 = pty.try_clone().map_err(|e| format!("dup pty: {e}"))?;
             let r: &mut std::fs::File = &mut f2;
             let got = AutoStream::choice(&r);
-            if got != want {
+            if !agrees(cfg, got, want) {
                 return Err(format!("terminal stream as &mut File: choice = {:?}, expected {:?} for {}", got, want, show()));
             }
             let sr = AutoStream::auto(r);
@@ -149,7 +160,7 @@ fn check_config(cfg: &Config, st: &Streams) -> Result<(), String> {
     } else {
         let v: Vec<u8> = Vec::new();
         let got = AutoStream::choice(&v);
-        if got != want {
+        if !agrees(cfg, got, want) {
             return Err(format!("Vec<u8>: choice = {:?}, expected {:?} for {}", got, want, show()));
         }
         let s = AutoStream::auto(v);
@@ -163,12 +174,12 @@ fn check_config(cfg: &Config, st: &Streams) -> Result<(), String> {
         for (name, f) in [("regular file", &st.file), ("pipe", &st.pipe_w)] {
             let boxed: Box<std::fs::File> = Box::new(f.try_clone().map_err(|e| format!("dup: {e}"))?);
             let got = AutoStream::choice(&boxed);
-            if got != want || AutoStream::auto(boxed).is_terminal() {
+            if !agrees(cfg, got, want) || AutoStream::auto(boxed).is_terminal() {
                 return Err(format!("{name} as Box<File>: choice = {:?}, expected {:?} for {}", got, want, show()));
             }
             let f = f.try_clone().map_err(|e| format!("dup: {e}"))?;
             let got = AutoStream::choice(&f);
-            if got != want {
+            if !agrees(cfg, got, want) {
                 return Err(format!("{name}: choice = {:?}, expected {:?} for {}", got, want, show()));
             }
             let s = AutoStream::auto(f);
@@ -463,7 +474,7 @@ fn pty_child(result: &str) {
                                 n += 1;
                                 let is_out = name.contains("tdout");
                                 let (want, tty) = if is_out { (want_out, out_tty) } else { (want_err, err_tty) };
-                                if g != want || t != tty {
+                                if !agrees(&cfg, g, want) || t != tty {
                                     failure = Some(format!("{name} (stdout terminal: {out_tty}, stderr terminal: {err_tty}): choice = {:?} (is_terminal {t}), expected {:?} for {}", g, want, describe(&cfg)));
                                     break 'outer;
                                 }
